@@ -202,6 +202,20 @@ func genDER(g *core.Gen) {
 			emit(mut, b)
 		}
 	}
+	// sequence length byte 0xfc..0xff where the declared length is EXACTLY right without byte wrap-around:
+	// Go computes siglen+2 in a byte (252+2=254, 253+2=255, 254+2 -> 0, 255+2 -> 1)
+	for _, sl := range []int{250, 251, 252, 253, 254, 255} {
+		for k := 0; k < 3; k++ {
+			rv, sv := minimalBody(randScalarish(r, edges)), minimalBody(randScalarish(r, edges))
+			pad := sl - 4 - len(rv) - len(sv)
+			pr := r.Intn(pad + 1)
+			if len(rv)+pr > 255 || len(sv)+pad-pr > 255 {
+				pr = pad / 2
+			}
+			d := derShape{seqTag: 0x30, rTag: 2, sTag: 2, rBody: append(make([]byte, pr), rv...), sBody: append(make([]byte, pad-pr), sv...)}
+			emit("wrap-exact", d.bytes())
+		}
+	}
 	// lengths around the limits
 	for l := 0; l <= 80; l++ {
 		b := make([]byte, l)
